@@ -30,7 +30,7 @@ pub struct Gen {
     pub check: fn(&J) -> Verdict,
 }
 
-pub const HANG_LIMIT: Duration = Duration::from_secs(10);
+pub const HANG_LIMIT: Duration = Duration::from_secs(6);
 
 pub struct Outcome {
     pub violation: Option<(String, J, String, String)>,
@@ -76,10 +76,10 @@ pub const RULE: &str = "a case counts once per distinct canonical JSON text of i
 
 /// Run the generators of `prop` within `budget`. Generators whose tags match `key` go
 /// first. Each generator gets an equal share of the remaining time; unused time rolls over.
-pub fn run(prop: &str, key: &str, seed: u64, budget: Duration) -> Outcome {
+pub fn run(prop: &str, key: &str, seed: u64, budget: Duration, skip: &[String]) -> Outcome {
     let start = Instant::now();
     let deadline = start + budget;
-    let mut gens: Vec<Gen> = all_gens().into_iter().filter(|g| g.prop == prop).collect();
+    let mut gens: Vec<Gen> = all_gens().into_iter().filter(|g| g.prop == prop && !skip.iter().any(|s| s == g.name)).collect();
     let key_l = key.to_lowercase();
     gens.sort_by_key(|g| if g.tags.iter().any(|t| key_l.contains(&t.to_lowercase())) { 0 } else { 1 });
     let names: Vec<String> = gens.iter().map(|g| g.name.to_string()).collect();
@@ -92,10 +92,11 @@ pub fn run(prop: &str, key: &str, seed: u64, budget: Duration) -> Outcome {
         std::thread::spawn(move || loop {
             std::thread::sleep(Duration::from_millis(100));
             let c = current.lock().unwrap();
-            if c.active && c.started.elapsed() > HANG_LIMIT {
+            let overdue = Instant::now() > deadline + Duration::from_millis(500) && c.started.elapsed() > Duration::from_secs(2);
+            if c.active && (c.started.elapsed() > HANG_LIMIT || overdue) {
                 let out = json!({
                     "found": true, "property": prop, "generator": c.gen, "input": c.case,
-                    "observed": format!("HANG: no result after {} s", HANG_LIMIT.as_secs()),
+                    "observed": format!("HANG: no result after {} s", c.started.elapsed().as_secs()),
                     "expected": "every call returns", "cases_tried": c.tried
                 });
                 println!("{}", jstr(&out));
@@ -132,13 +133,22 @@ pub fn run(prop: &str, key: &str, seed: u64, budget: Duration) -> Outcome {
                 c.tried = tried;
                 c.active = true;
             }
+            let case_text = jstr(&case);
+            crate::crash::arm(
+                &format!(
+                    "{{\"found\":true,\"property\":\"{}\",\"generator\":\"{}\",\"input\":{},\"observed\":\"ABORT: the process was killed by a signal while running this case (stack overflow / abort)\",\"expected\":\"every call returns Ok or Err\",\"cases_tried\":{}}}",
+                    prop, g.name, case_text, tried
+                ),
+                0,
+            );
             let verdict = (g.check)(&case);
+            crate::crash::disarm();
             current.lock().unwrap().active = false;
             tried += 1;
             per_gen += 1;
             match verdict {
                 Verdict::Pass => {
-                    let h = fnv(&format!("{}|{}", g.name, jstr(&case)));
+                    let h = fnv(&format!("{}|{}", g.name, case_text));
                     if distinct.insert(h) && samples.len() < 3 && (!gen_sampled || i + 1 == n) {
                         gen_sampled = true;
                         samples.push(json!({"generator": g.name, "input": case}));
